@@ -18,7 +18,7 @@ def run(ctx):
     rng = random.Random(ctx.seed * 6007 + 8)
     k = 1 if ctx.tier == "quick" else 4
     fixed = []
-    for g, n in (("g2", 25 * k), ("g3", 20 * k), ("g3x", 8 * k), ("g3y", 12 * k), ("g3z", 15 * k), ("g3v", 14 * k), ("g3u", 8 * k), ("g3dd", 10 * k)):
+    for g, n in (("g2", 25 * k), ("g3", 20 * k), ("g3x", 8 * k), ("g3y", 12 * k), ("g3z", 15 * k), ("g3v", 14 * k), ("g3u", 8 * k), ("g3dd", 10 * k), ("g4s", 12 * k), ("g4", 10 * k)):
         for _ in range(n):
             case = getattr(gens, g)(rng)
             fixed.append(dict(case=case, modes=["plain"], input_seed=rng.randrange(10**9)))
@@ -72,7 +72,7 @@ def run(ctx):
             for ex in r.get("execs", []):
                 ok, reason, sig = semcheck.verdict(r["case"], ex)
                 key = json.dumps(semcheck.outputs_of(ex), sort_keys=True) if ex.get("ok") else "ERR:" + str(ex.get("err"))
-                outs.setdefault(key, []).append((r["hashseed"], ok, reason))
+                outs.setdefault(key, []).append((r["hashseed"], ok, reason, sig, r))
         if outs:
             agree = len(outs) == 1
             ctx.ob(agree)
@@ -89,7 +89,14 @@ def run(ctx):
                 if not ok:
                     tags = set(rs[0]["case"]["tags"]) if rs[0]["case"] else set()
                     bad = tags & {"leader_not_first_factor", "metrics_partitioned_index_math", "eager_root_after_lookup_rank"}
-                    if bad:
+                    # convolutions outside C04's claimed class stay C04's findings (same classification and signatures as ./check C04)
+                    conv_known = None
+                    if "conv" in tags:
+                        import c04
+                        for pr in c04.classify(rs[0]["case"], vs[0][4]):
+                            conv_known = conv_known or next((f for f in common.load_findings("C04")
+                                                             if f["match"]["predicate"] == pr and f["match"]["signature"] in ("*", vs[0][3])), None)
+                    if bad or conv_known:
                         ctx.stat("known_bad_class_skipped"); ctx.oblig -= 1
                     else:
                         ctx.violation(dict(kind="variants-wrong", yaml=rs[0]["yaml"], mode=mode, text=oks[0]["text"], reason=vs[0][2], inputs=oks[0]["execs"][0]["inputs"]), True)
